@@ -244,6 +244,8 @@ def _file_consistency(path, ll, lp):
             cls = Aspire.get_sampler_class(b, cfg_sampler).__name__
             if cls != st["sampler"]:
                 out.append(("config-mismatch", f"configuration names sampler '{cfg_sampler}' ({cls}) but the checkpoint was written by {st['sampler']}"))
+        else:
+            out.append(("config-names-no-sampler", f"the stored configuration names no sampler although the file holds a checkpoint written by {st['sampler']}"))
     return out
 
 
@@ -251,12 +253,15 @@ def native_C14(tier, seed):
     import itertools
     mk, ll, lp, SA, SB = _aspire_problem()
     fails, cases = [], 0
-    ops = ["fitA", "fitB", "fitB_ow", "smc", "imp", "ctx_smc", "resume_smc"]
+    ops = ["fitA", "fitB", "fitB_ow", "smc", "imp", "ctx_smc", "resume_smc", "resume_ctx_smc", "resume_ctx_fitA", "ctx_fitA", "other_fitA"]
     maxlen = 3 if tier == "quick" else 4
-    seqs = [s for L in range(1, maxlen + 1) for s in itertools.product(ops, repeat=L)]
+    seqs = [s for L in range(1, 4) for s in itertools.product(ops, repeat=L)]
+    if maxlen == 4:
+        seqs += list(itertools.product(ops[:7], repeat=4))        # length 4 over the first seven operations only
     if tier == "quick":
         rng = np.random.default_rng(seed)
-        must = [("fitA", "fitB", "smc"), ("fitA", "smc", "fitB_ow"), ("fitA", "smc", "imp"), ("fitA", "smc", "resume_smc"), ("fitA", "ctx_smc", "ctx_smc")]
+        must = [("fitA", "fitB", "smc"), ("fitA", "smc", "fitB_ow"), ("fitA", "smc", "imp"), ("fitA", "smc", "resume_smc"), ("fitA", "ctx_smc", "ctx_smc"),
+                ("fitA", "ctx_smc", "resume_ctx_smc"), ("fitA", "ctx_smc", "resume_ctx_fitA"), ("fitA", "ctx_smc", "ctx_fitA"), ("fitA", "ctx_smc", "other_fitA")]
         pick = [seqs[i] for i in rng.choice(len(seqs), size=40, replace=False)]
         seqs = must + pick
     for seq in seqs:
@@ -269,7 +274,29 @@ def native_C14(tier, seed):
             ok = True
             for op in seq:
                 try:
-                    if op in ("fitA", "fitB", "fitB_ow"):
+                    if op == "ctx_fitA":
+                        # a refit (same data, no overwrite) inside a new automatic-checkpointing context: rewrites the configuration
+                        with a.auto_checkpoint(path):
+                            a.fit(SA, n_epochs=1)
+                    elif op == "other_fitA":
+                        # another instance (which has not sampled) is fitted with the same file as its checkpoint path
+                        mk().fit(SA, n_epochs=1, checkpoint_path=path)
+                    elif op in ("resume_ctx_smc", "resume_ctx_fitA"):
+                        import h5py
+                        if not os.path.exists(path):
+                            ok = False
+                            break
+                        with h5py.File(path, "r") as f:
+                            if not {"aspire_config", "flow"} <= set(f.keys()):
+                                ok = False
+                                break
+                        a = type(a).resume_from_file(path, log_likelihood=ll, log_prior=lp)
+                        with a.auto_checkpoint(path):
+                            if op == "resume_ctx_smc":
+                                a.sample_posterior(20, n_steps=2, adaptive=False, sampler_kwargs=dict(n_steps=1))      # sampler type inferred from the file
+                            else:
+                                a.fit(SA, n_epochs=1)
+                    elif op in ("fitA", "fitB", "fitB_ow"):
                         a.fit(SA if op == "fitA" else SB, n_epochs=1, checkpoint_path=path, overwrite=(op == "fitB_ow"))
                         last_fit = (op, had_ckpt)
                     elif a.flow is None:
@@ -307,6 +334,8 @@ def native_C14(tier, seed):
                         tag = " [stale flow after refit without overwrite]" if last_fit[0] in ("fitA", "fitB") else " [stale checkpoint after refit with overwrite]"
                     if kind == "config-mismatch" and "imp" in seq:
                         tag = " [config rewritten by a sampler without checkpoint support]"
+                    if kind == "config-names-no-sampler":
+                        tag = " [config rewritten by an instance that has not sampled]" if op == "other_fitA" else f" [config rewritten by {op}]"
                     fails.append({"id": f"C14-{'-'.join(seq)}-{kind}", "obligation": "C14:J", "what": f"after {list(seq[:seq.index(op) + 1])}: {detail}{tag}", "input": {"sequence": list(seq)}})
                 if inc:
                     break
@@ -319,8 +348,8 @@ def native_C14(tier, seed):
         if k not in seen:
             seen.add(k)
             uniq.append(f)
-    return {"what": "operation sequences over {fit A, fit B, fit B overwrite, sample smc, sample importance, sample smc inside auto_checkpoint, resume_from_file + sample} on one real file (zuko flow, stub kernel); after every operation the stored flow is compared with the log_q of the stored checkpoint's particles and the stored sampler type with the checkpoint's writer",
-            "bound": f"sequences of length <= {maxlen} ({len(seqs)} sequences)", "cases": cases, "failures": uniq}
+    return {"what": "operation sequences over {fit A, fit B, fit B overwrite, sample smc, sample importance, sample smc inside auto_checkpoint, resume_from_file + sample, resume_from_file + sample / refit inside a new auto_checkpoint context, refit inside a new context, fit of a second instance} on one real file (zuko flow, stub kernel); after every operation the stored flow is compared with the log_q of the stored checkpoint's particles and the stored sampler type with the checkpoint's writer",
+            "bound": f"sequences of length <= 3 over all operations" + (" and of length 4 over the first seven" if maxlen == 4 else " (sampled)") + f" ({len(seqs)} sequences)", "cases": cases, "failures": uniq}
 
 
 def native_C20(tier, seed):
